@@ -186,6 +186,44 @@ def mutate(rng, s):
     return s[:i] + rng.choice(['/', '/2+', '..', '·', '....', '@', 'e', '.']) + s[i:]
 
 
+def gen_history(rng):
+    """an operation history over one or two formulas: parse / construct / mutate the returned objects in place / parse again"""
+    asts = [fg.gen_formula(rng, max_depth=2) for _ in range(rng.choice([1, 2, 2]))]
+    if rng.random() < 0.5:
+        asts[0]['charge'] = None                      # so that Substance.from_formula(..., charge=q) is admissible
+    steps = []
+    for _ in range(rng.randint(3, 7)):
+        i = rng.randrange(len(asts))
+        r = rng.random()
+        if r < 0.25:
+            steps.append({'do': 'parse', 'i': i})
+        elif r < 0.50:
+            steps.append({'do': 'mutate', 'i': i, 'how': rng.choice(['set0', 'scale', 'clear', 'pop', 'add'])})
+        elif r < 0.65:
+            steps.append({'do': 'substance', 'i': i, 'mutate': rng.random() < 0.5})
+        elif r < 0.85:
+            steps.append({'do': 'substance_charge', 'i': i, 'q': rng.choice([-3, -2, -1, 1, 2, 3])})
+        else:
+            steps.append({'do': 'species', 'i': i, 'mutate': rng.random() < 0.5})
+    return {'kind': 'history', 'asts': asts, 'steps': steps}
+
+
+def comp_mismatch(got, want, decimals, tol):
+    """None if the real dict `got` is the composition `want` (exact Fractions), else a description"""
+    if not isinstance(got, dict):
+        return 'is %r' % (got,)
+    if set(got) != set(want):
+        return 'has keys %s, written elements/charge are %s' % (sorted(got), sorted(want))
+    for k, v in want.items():
+        g = got[k]
+        if isinstance(g, bool) or not isinstance(g, (int, float)):
+            return '[%d] is a %s' % (k, type(g).__name__)
+        exact = not decimals and abs(v) < 2 ** 53
+        if (exact and Fraction(g) != v) or not close(g, v, tol, 0.0):
+            return '[%d] = %r, written amount is %s' % (k, g, v)
+    return None
+
+
 class C01(Property):
     pid = 'C01'
     title = ('parsing a formula written in the supported notation returns, for every atomic number, the sum over its occurrences of the '
@@ -237,6 +275,9 @@ class C01(Property):
         target = n + len(pairs)
         while len(cases) < target:
             r = rng.random()
+            if r < 0.04:
+                cases.append(gen_history(rng))
+                continue
             f = fg.gen_formula(rng, max_depth=depth if rng.random() < 0.5 else rng.randint(0, depth))
             s = fg.render(f)
             if r < 0.55:
@@ -257,6 +298,8 @@ class C01(Property):
 
     # ------------------------------------------------------------------ correspondence
     def model_case(self, c):
+        if not c.get('op'):
+            return None
         if c['op'] == 'roundtrip':
             return {'op': 'roundtrip', 'ast': c['ast']}
         return {'op': c['op'], 's': c['s']}
@@ -309,6 +352,8 @@ class C01(Property):
 
     # ------------------------------------------------------------------ the property on the real code
     def oracle(self, c):
+        if c.get('kind') == 'history':
+            return self._history(c)
         if c['op'] == 'roundtrip':
             f = c['ast']
             s = fg.render(f)
@@ -334,10 +379,103 @@ class C01(Property):
                         return '%s(%r) returned %r although the text is ill-formed (%s)' % (name, c['s'], got, ', '.join(cls))
         return None
 
+    def _history(self, c):
+        """histories: after every step a fresh parse of every formula still equals the AST denotation and is a new object"""
+        from chempy.util.parsing import formula_to_composition
+        from chempy import Substance, Species
+        asts = c['asts']
+        texts = [fg.render(a) for a in asts]
+        wants = [fg.composition(a) for a in asts]
+        decs = [fg.has_decimal(a) for a in asts]
+        seen = []                      # every dict object obtained so far (kept alive): (object, label)
+        last = [None] * len(asts)
+
+        def note(obj, label):
+            for o, lab in seen:
+                if obj is o:
+                    return '%s returned the SAME dict object as %s (results must not be shared)' % (label, lab)
+            seen.append((obj, label))
+            return None
+
+        def fresh(i, after):
+            label = 'formula_to_composition(%r) after %s' % (texts[i], after)
+            try:
+                r = formula_to_composition(texts[i])
+            except Exception as e:
+                return '%s raised %s' % (label, exc_name(e))
+            m = comp_mismatch(r, wants[i], decs[i], self.float_tol)
+            if m:
+                return '%s %s' % (label, m)
+            last[i] = r
+            return note(r, label)
+
+        for n, st in enumerate(c['steps']):
+            i, do = st['i'], st['do']
+            where = 'step %d (%s on %r)' % (n, do, texts[i])
+            try:
+                if do == 'parse':
+                    f = fresh(i, where)
+                    if f:
+                        return f
+                elif do == 'mutate':
+                    r = last[i]
+                    if r is None:
+                        f = fresh(i, where)
+                        if f:
+                            return f
+                        r = last[i]
+                    how = st['how']
+                    if how == 'set0':
+                        r[0] = 7
+                    elif how == 'scale':
+                        for k in list(r):
+                            r[k] = r[k] * 2
+                    elif how == 'clear':
+                        r.clear()
+                    elif how == 'pop' and r:
+                        r.pop(next(iter(r)))
+                    elif how == 'add':
+                        r[119] = 1
+                elif do in ('substance', 'species'):
+                    cls = Substance if do == 'substance' else Species
+                    sub = cls.from_formula(texts[i])
+                    m = comp_mismatch(sub.composition, wants[i], decs[i], self.float_tol)
+                    if m:
+                        return '%s.from_formula(%r).composition %s' % (cls.__name__, texts[i], m)
+                    f = note(sub.composition, '%s.from_formula(%r).composition at step %d' % (cls.__name__, texts[i], n))
+                    if f:
+                        return f
+                    if do == 'species':
+                        want_idx = {'(s)': 1, '(l)': 2, '(g)': 3}.get(asts[i]['suffix'], 0)
+                        if sub.phase_idx != want_idx:
+                            return 'Species.from_formula(%r).phase_idx = %r, suffix says %d' % (texts[i], sub.phase_idx, want_idx)
+                    if st.get('mutate'):
+                        sub.composition[0] = 5
+                elif do == 'substance_charge':
+                    if asts[i]['charge'] is None:
+                        sub = Substance.from_formula(texts[i], charge=st['q'])
+                        want = dict(wants[i])
+                        want[0] = Fraction(st['q'])
+                        m = comp_mismatch(sub.composition, want, decs[i], self.float_tol)
+                        if m:
+                            return 'Substance.from_formula(%r, charge=%d).composition %s' % (texts[i], st['q'], m)
+                        f = note(sub.composition, 'Substance.from_formula(%r, charge=%d).composition at step %d' % (texts[i], st['q'], n))
+                        if f:
+                            return f
+            except Exception as e:
+                return '%s raised %s: %s' % (where, exc_name(e), str(e)[:100])
+            for j in range(len(asts)):
+                f = fresh(j, where)
+                if f:
+                    return f
+        return None
+
     def _real_dicts(self, s):
         return real_dicts(s)
 
     def classify(self, c):
+        if c.get('kind') == 'history':
+            return 'history:%dformulas:%s' % (len(c['asts']), '+'.join(sorted({st['do'] for st in c['steps']})))
         if c['op'] == 'roundtrip':
             f = c['ast']
             return 'ast:%s:depth%d%s%s%s%s' % (c.get('src', 'gen'), fg.depth(f), ':dec' if fg.has_decimal(f) else '', ':chg' if f['charge'] else '',
@@ -348,11 +486,15 @@ class C01(Property):
         return c['op']
 
     def nontrivial(self, c):
+        if c.get('kind') == 'history':
+            return True
         s = fg.render(c['ast']) if c['op'] == 'roundtrip' else c.get('s', '')
         return len(s) >= 2
 
     def shrink(self, case, still_fails):
         if case.get('op') != 'parse':
+            if case.get('kind') == 'history':
+                return self._shrink_history(case, still_fails)
             return case
         s = case['s']
         changed = True
@@ -368,6 +510,22 @@ class C01(Property):
                 except Exception:
                     pass
         return dict(case, s=s)
+
+
+    def _shrink_history(self, case, still_fails):
+        steps = list(case['steps'])
+        changed = True
+        while changed and len(steps) > 1:
+            changed = False
+            for k in range(len(steps)):
+                c2 = dict(case, steps=steps[:k] + steps[k + 1:])
+                try:
+                    if still_fails(c2):
+                        steps, changed = c2['steps'], True
+                        break
+                except Exception:
+                    pass
+        return dict(case, steps=steps)
 
 
 PROPERTY = C01()
